@@ -147,3 +147,45 @@ def standard_units(tier):
     out += l2_units(thorough, envs=ENVS_QUICK if not thorough else ENVS_ALL)
     out += family_units(envs=ENVS_QUICK if not thorough else ENVS_ALL)
     return out
+
+
+def special_string_units(strings, kinds=('UTF8String', 'IA5String')):
+    """Character strings with syntax-significant content (quotes, markup, new-lines, blanks) in
+    every standard context and inside nested lists / structures, for the text codecs: layout code
+    (indentation, separators, escaping) sees the string at every depth.  The unit carries
+    extra['string_values']; use values_of(unit, term) to get the value domain."""
+    B = Leaf('BOOLEAN')
+    tops = []
+    for k in kinds:
+        x = Leaf(k)
+        for ctx, term in A.contexts(x, None):
+            tops.append((term, 'Ls:%s:%s' % (ctx, k)))
+        nested = [
+            ('of-of', Of(Of(x))),
+            ('seq-of', Seq((M('l', Of(x)), M('t', B)))),
+            ('of-seq', Of(Seq((M('s', x), M('u', x, 'O'))))),
+            ('of-cho', Of(Cho((M('p', B), M('x', x))))),
+            ('seq-seq-of', Seq((M('i', Seq((M('l', Of(x)),))), M('t', x)))),
+            ('cho-of', Cho((M('p', B), M('l', Of(x))))),
+            ('set-of', Of(x, None, True)),
+        ]
+        for ctx, term in nested:
+            tops.append((term, 'Ls:%s:%s' % (ctx, k)))
+    out = []
+    for bi, chunk in enumerate(batches(tops)):
+        u = make_unit('Ls/%d' % bi, chunk)
+        u.extra['string_values'] = list(strings)
+        u.extra['all_indents'] = True
+        out.append(u)
+    return out
+
+
+def values_of(unit, term):
+    """Value domain of a top-level term of a unit (honours extra['values'] / extra['string_values'])."""
+    from .values import dom, dom_with
+    if unit.extra.get('values'):
+        return unit.extra['values']
+    sv = unit.extra.get('string_values')
+    if sv:
+        return dom_with(term, unit.env, lambda l: sv if l.is_string() else None)
+    return dom(term, unit.env)
